@@ -12,1193 +12,18 @@
 // global live set of the instrumented element type (every constructed object
 // registers `this`), a tracking allocator (block sizes, no live object inside a
 // freed block) and ASan/UBSan/LSan.
-#include "common/hv.h"
-#include <map>
-#include <set>
-#include <unordered_set>
-#include <memory>
-#include <algorithm>
-#include <functional>
-#include <stdexcept>
-#include <assert.h>
-#include <inttypes.h>
-#include <math.h>
-#include <new>
-#include <stdarg.h>
-#include <stddef.h>
-#include <stdint.h>
-#include <stdio.h>
-#include <stdlib.h>
-#include <string.h>
-
+// Round 3b: split into translation units compiled in parallel (checks/C02.json "sources"): this one = dispatch, the
+// operations run before main() and the generator; C02_vec / C02_vect / C02_pt / C02_ptt = the four vector machines;
+// C02_eqx; C02_flat; C02_compat.
+#include "C02/common.h"
 #include <igris/container/vector.h>
 #include <igris/container/flat_map.h>
 #include <igris/container/flat_set.h>
-// the second igris::vector lives in the same namespace: wrap it
-namespace pt
-{
-#include <igris/container/std_portable.h>
-}
-
-using namespace hv;
+#include "C02/flat_ops.h" // g_fa_fired
 
 // implemented in C02_compat.cpp (flat_map/flat_set/std::map/std::set over igris::vector)
 std::string c02_compat(const std::string &line);
 
-// ------------------------------------------------------------------ ledger
-struct Ev
-{
-    long ctor = 0, mctor = 0, dtor = 0, asg = 0, masg = 0, alloc = 0, dealloc = 0;
-};
-static Ev g_ev;                 // events of the current operation
-static Ev g_tot;                // events since reset
-static std::string g_fault;     // first lifetime fault of the current operation
-static std::unordered_set<const void *> g_live;
-static std::map<const char *, std::pair<size_t, size_t>> g_blocks; // base -> (count, elemsize)
-
-static void fault(const std::string &s)
-{
-    if (g_fault.empty())
-        g_fault = s;
-}
-
-// exception injection: the element operations that may throw (default / value / copy construction, copy
-// assignment; moves and the destructor are noexcept) count down a fuse; at 0 the operation throws BEFORE it
-// changes anything and the fuse is disarmed.  -1 = disarmed.
-struct Boom
-{
-};
-static long g_fuse = -1;
-static inline void tick()
-{
-    if (g_fuse == 0)
-    {
-        g_fuse = -1;
-        throw Boom();
-    }
-    if (g_fuse > 0)
-        g_fuse--;
-}
-
-// allocation-failure injection (round 3): the tracking allocator throws std::bad_alloc at the k-th allocation of
-// the armed window (g_afuse, -1 = disarmed) or for every request above g_alimit elements (-1 = no limit)
-static long g_afuse = -1;
-static long g_alimit = -1;
-static long g_afired = 0;
-
-struct Tracked
-{
-    int val;
-    char *heap; // owned; nullptr = moved-from
-    bool isreg() const { return g_live.count(this) != 0; }
-    void reg(const char *what)
-    {
-        if (isreg())
-        {
-            fault(std::string(what) + "-over-live");
-            delete heap; // the object that was here is lost: keep LSan quiet, the fault is reported
-        }
-        g_live.insert(this);
-    }
-    int rd(const char *what) const
-    {
-        if (!isreg())
-        {
-            fault(std::string(what) + "-reads-dead");
-            return -777;
-        }
-        if (!heap)
-        {
-            fault(std::string(what) + "-reads-moved-from");
-            return -778;
-        }
-        return val;
-    }
-    Tracked()
-    {
-        tick();
-        reg("construct");
-        val = 0;
-        heap = new char(0);
-        g_ev.ctor++;
-    }
-    Tracked(int v)
-    {
-        tick();
-        reg("construct");
-        val = v;
-        heap = new char((char)v);
-        g_ev.ctor++;
-    }
-    Tracked(const Tracked &o)
-    {
-        tick();
-        int v = o.rd("copy-construct");
-        reg("construct");
-        val = v;
-        heap = new char((char)v);
-        g_ev.ctor++;
-    }
-    Tracked(Tracked &&o) noexcept
-    {
-        int v = o.rd("move-construct");
-        reg("construct");
-        val = v;
-        heap = new char((char)v);
-        if (o.isreg() && o.heap)
-        {
-            delete o.heap;
-            o.heap = nullptr;
-        }
-        g_ev.mctor++;
-    }
-    Tracked &operator=(const Tracked &o)
-    {
-        tick();
-        g_ev.asg++;
-        int v = o.rd("assign");
-        if (!isreg())
-        {
-            fault("assign-to-dead");
-            g_live.insert(this); // treat as construction so that the run can go on
-            heap = nullptr;
-        }
-        val = v;
-        if (!heap)
-            heap = new char(0);
-        *heap = (char)v;
-        return *this;
-    }
-    Tracked &operator=(Tracked &&o) noexcept
-    {
-        g_ev.masg++;
-        if (this == &o)
-            return *this;
-        int v = o.rd("move-assign");
-        if (!isreg())
-        {
-            fault("move-assign-to-dead");
-            g_live.insert(this);
-            heap = nullptr;
-        }
-        val = v;
-        if (!heap)
-            heap = new char(0);
-        *heap = (char)v;
-        if (o.isreg() && o.heap)
-        {
-            delete o.heap;
-            o.heap = nullptr;
-        }
-        return *this;
-    }
-    ~Tracked()
-    {
-        g_ev.dtor++;
-        if (!isreg())
-        {
-            fault("destroy-dead");
-            return;
-        }
-        g_live.erase(this);
-        delete heap;
-        heap = nullptr;
-    }
-    bool operator==(const Tracked &o) const { return rd("==") == o.rd("=="); }
-    bool operator!=(const Tracked &o) const { return rd("!=") != o.rd("!="); }
-    bool operator<(const Tracked &o) const { return rd("<") < o.rd("<"); }
-};
-
-template <class T> struct TA
-{
-    using value_type = T;
-    TA() = default;
-    template <class U> TA(const TA<U> &) {}
-    T *allocate(size_t n)
-    {
-        if (g_afuse == 0)
-        {
-            g_afuse = -1;
-            g_afired++;
-            throw std::bad_alloc();
-        }
-        if (g_afuse > 0)
-            g_afuse--;
-        if (g_alimit >= 0 && n > (size_t)g_alimit)
-        {
-            g_afired++;
-            throw std::bad_alloc();
-        }
-        g_ev.alloc++;
-        // an exactly sized heap block: ASan sees every access outside it
-        T *p = std::allocator<T>().allocate(n);
-        g_blocks[(const char *)p] = {n, sizeof(T)};
-        return p;
-    }
-    void deallocate(T *p, size_t n)
-    {
-        g_ev.dealloc++;
-        auto it = g_blocks.find((const char *)p);
-        if (it == g_blocks.end())
-        {
-            fault("deallocate-unknown-block");
-            return;
-        }
-        if (it->second.first != n)
-            fault("deallocate-size " + std::to_string(n) + " allocated " + std::to_string(it->second.first));
-        const char *lo = (const char *)p, *hi = lo + it->second.first * it->second.second;
-        std::vector<const void *> lost;
-        for (auto q : g_live)
-            if ((const char *)q >= lo && (const char *)q < hi)
-                lost.push_back(q);
-        if (!lost.empty())
-        {
-            fault("deallocate-with-" + std::to_string(lost.size()) + "-live-objects");
-            for (auto q : lost)
-            {
-                delete ((Tracked *)q)->heap;
-                g_live.erase(q);
-            }
-        }
-        size_t real = it->second.first;
-        g_blocks.erase(it);
-        std::allocator<T>().deallocate(p, real);
-    }
-    bool operator==(const TA &) const { return true; }
-    bool operator!=(const TA &) const { return false; }
-};
-
-static int peek(const int &x) { return x; }
-static int peek(const Tracked &x) { return x.val; }
-
-// ------------------------------------------------------------------ vector machine
-struct MachBase
-{
-    virtual ~MachBase() {}
-    virtual void step(const std::vector<std::string> &w, out &o) = 0;
-};
-
-static const int NREG = 3;
-
-template <class V, class T, bool PORTABLE> struct Mach : MachBase
-{
-    V *r[NREG];
-    std::vector<int> m[NREG];
-    static constexpr bool TRK = std::is_same<T, Tracked>::value;
-
-    Mach()
-    {
-        for (auto &p : r)
-            p = new V();
-    }
-    ~Mach()
-    {
-        for (auto &p : r)
-            delete p;
-    }
-    static std::string evs(const Ev &e)
-    {
-        char b[128];
-        if (TRK)
-            snprintf(b, sizeof b, "%ld,%ld,%ld,%ld,%ld,%ld,%ld", e.ctor, e.mctor, e.dtor, e.asg, e.masg, e.alloc, e.dealloc);
-        else
-            snprintf(b, sizeof b, "-,-,-,-,-,%ld,%ld", e.alloc, e.dealloc);
-        return b;
-    }
-    std::string show(int i)
-    {
-        // round 3: the raw capacity is NOT part of the compared line (std::vector leaves the growth policy to the
-        // implementation); what the contract fixes about it is judged by capverdict() and printed as `cap=ok`
-        std::string s = std::to_string(r[i]->size()) + ":";
-        if (r[i]->size() == 0)
-            s += "-";
-        for (size_t k = 0; k < r[i]->size(); k++)
-            s += (k ? "," : "") + std::to_string(peek(r[i]->data()[k]));
-        return s;
-    }
-    void check(out &o)
-    {
-        size_t total = 0;
-        for (int i = 0; i < NREG; i++)
-        {
-            V &v = *r[i];
-            if (v.size() != m[i].size())
-                o.fail("size r" + std::to_string(i) + " " + std::to_string(v.size()) + " std::vector " + std::to_string(m[i].size()));
-            else
-                for (size_t k = 0; k < v.size(); k++)
-                    if (peek(v.data()[k]) != m[i][k])
-                    {
-                        o.fail("element r" + std::to_string(i) + "[" + std::to_string(k) + "]=" + std::to_string(peek(v.data()[k])) + " std::vector " + std::to_string(m[i][k]));
-                        break;
-                    }
-            if (v.capacity() < v.size())
-                o.fail("capacity<size");
-            if (v.empty() != m[i].empty())
-                o.fail("empty()");
-            total += v.size();
-            if (TRK)
-                for (size_t k = 0; k < v.size(); k++)
-                {
-                    if (!g_live.count((const void *)(v.data() + k)))
-                        o.fail("slot r" + std::to_string(i) + "[" + std::to_string(k) + "] holds no constructed object");
-                    else if (!((const Tracked *)(const void *)(v.data() + k))->heap)
-                        o.fail("slot r" + std::to_string(i) + "[" + std::to_string(k) + "] is moved-from");
-                }
-        }
-        if (TRK && g_live.size() != total)
-            o.fail(std::to_string(g_live.size()) + " constructed objects, " + std::to_string(total) + " elements");
-        size_t bl = 0;
-        for (int i = 0; i < NREG; i++)
-            if (r[i]->data())
-            {
-                bl++;
-                auto it = g_blocks.find((const char *)r[i]->data());
-                if (it == g_blocks.end() || it->second.first != r[i]->capacity())
-                    o.fail("capacity() is not the size of the allocated block");
-            }
-        // round 3: a vector without a block has no capacity (a failed allocation must not leave one behind)
-        for (int i = 0; i < NREG; i++)
-            if (!r[i]->data() && r[i]->capacity() != 0)
-                o.fail("capacity() " + std::to_string(r[i]->capacity()) + " without a block");
-        if (g_blocks.size() != bl)
-            o.fail(std::to_string(g_blocks.size()) + " blocks allocated, " + std::to_string(bl) + " owned");
-        if (!g_fault.empty())
-            o.fail("lifetime " + g_fault);
-    }
-    static T mk(int x) { return T(x); }
-
-    // a foreign array of elements (insx / tctor), built and destroyed outside the event / fuse window
-    struct ExtArr
-    {
-        T *p;
-        size_t n;
-        ExtArr(const std::vector<int> &xs) : n(xs.size())
-        {
-            Ev keep = g_ev;
-            long f = g_fuse;
-            g_fuse = -1;
-            p = std::allocator<T>().allocate(n ? n : 1);
-            for (size_t k = 0; k < n; k++)
-                new ((void *)(p + k)) T(xs[k]);
-            g_ev = keep;
-            g_fuse = f;
-        }
-        ~ExtArr()
-        {
-            Ev keep = g_ev;
-            long f = g_fuse;
-            g_fuse = -1;
-            for (size_t k = 0; k < n; k++)
-                p[k].~T();
-            std::allocator<T>().deallocate(p, n ? n : 1);
-            g_ev = keep;
-            g_fuse = f;
-        }
-    };
-
-    // what std::vector's contract fixes about capacity(): capacity() >= size() always; an in-place operation never
-    // shrinks it; it reallocates (data pointer / allocator event) only when the required size exceeds the old
-    // capacity (reference stability); operations that do not grow never touch the block; reserve(n) => capacity >= n
-    struct Snap
-    {
-        size_t sz[NREG], cap[NREG];
-        const void *data[NREG];
-    };
-    Snap snap()
-    {
-        Snap s;
-        for (int i = 0; i < NREG; i++)
-        {
-            s.sz[i] = r[i] ? r[i]->size() : 0;
-            s.cap[i] = r[i] ? r[i]->capacity() : 0;
-            s.data[i] = r[i] ? (const void *)r[i]->data() : nullptr;
-        }
-        return s;
-    }
-    static int opclass(const std::string &op)
-    { // 1 = grows in place, 2 = never grows, 0 = replaces the object / the buffer (no promise)
-        static const char *grow[] = {"push", "pushself", "eback", "ebackself", "ins", "insi", "insself", "empl", "emplself", "insr", "insx", "inss", "resize", "reserve"};
-        static const char *same[] = {"pop", "erase", "eraseto", "erase1", "clear", "eq", "ne", "lt", "at", "cat", "idx", "fb", "iter", "riter"};
-        for (auto g : grow) if (op == g) return 1;
-        for (auto g : same) if (op == g) return 2;
-        return 0;
-    }
-    std::string capverdict(const std::string &op, int a, long narg, const Snap &b, const Ev &ev, bool threw)
-    {
-        for (int i = 0; i < NREG; i++)
-            if (r[i]->capacity() < r[i]->size())
-                return "BAD-capacity<size";
-        if (threw)
-            return "ok";
-        int c = opclass(op);
-        V &v = *r[a];
-        if (c == 1)
-        {
-            size_t need = (op == "reserve" || op == "resize") ? (size_t)narg : v.size();
-            if (v.capacity() < b.cap[a])
-                return "BAD-shrunk";
-            if (op == "reserve" && v.capacity() < (size_t)narg)
-                return "BAD-reserve-too-small";
-            if (need <= b.cap[a] && (v.data() != b.data[a] || ev.alloc != 0 || ev.dealloc != 0))
-                return "BAD-reallocated-inside-capacity";
-        }
-        else if (c == 2)
-        {
-            if (v.capacity() != b.cap[a] || v.data() != b.data[a] || ev.alloc != 0 || ev.dealloc != 0)
-                return "BAD-block-changed";
-        }
-        return "ok";
-    }
-    static long sumsz(const Snap &s)
-    {
-        long t = 0;
-        for (int i = 0; i < NREG; i++) t += (long)s.sz[i];
-        return t;
-    }
-
-    // `a <k> <op …>`: the k-th allocation of the call fails (std::bad_alloc); `al <n> <op …>`: every request above n
-    // elements fails.  After a failure the oracle judges the state the exception left (strong guarantee where
-    // std::vector gives it: no effects), then the SAME operation is run again unarmed and its line is the result,
-    // so that the compared line does not depend on the growth policy (whether an allocation was needed at all).
-    void step(const std::vector<std::string> &w0, out &o) override
-    {
-        if ((w0[0] == "a" || w0[0] == "al") && w0.size() >= 3)
-        {
-            std::vector<std::string> w(w0.begin() + 2, w0.end());
-            long k = atol(w0[1].c_str());
-            bool failed = step1(w, o, w0[0] == "a" ? k : -1, w0[0] == "al" ? k : -1);
-            std::string first = o.oracle;
-            if (failed)
-            {
-                o.tag("alloc-failed");
-                step1(w, o, -1, -1); // the caller goes on using the object: the same request, now granted
-            }
-            else
-                o.tag("alloc-fuse-not-reached");
-            o.result += std::string(" af=") + (first == "ok" ? "ok" : "BAD");
-            return;
-        }
-        if (w0[0] == "alx" && w0.size() >= 3)
-        { // a request no allocator grants (2^31 .. 2^63 elements): refused, no effects, no retry
-            std::vector<std::string> w(w0.begin() + 2, w0.end());
-            bool failed = step1(w, o, -1, atol(w0[1].c_str()));
-            if (!failed)
-                o.fail("the huge request was not refused");
-            o.tag("alloc-huge-refused");
-            return;
-        }
-        step1(w0, o, -1, -1);
-    }
-
-    // returns true when the (injected) allocation failure left the member function
-    bool step1(const std::vector<std::string> &w0, out &o, long afuse, long alimit)
-    {
-        // `x <k> <op …>`: the k-th (from 0) throwing-capable element operation inside the member function throws
-        std::vector<std::string> w = w0;
-        long arm = -1;
-        if (w[0] == "x" && w.size() >= 3 && TRK)
-        {
-            arm = atol(w[1].c_str());
-            w.erase(w.begin(), w.begin() + 2);
-        }
-        bool threw = false;
-        std::unique_ptr<T> xarg; // a value argument of the harness: built before and destroyed after the window
-        const std::string &op = w[0];
-        auto I = [&](size_t k) { return k < w.size() ? atoi(w[k].c_str()) : 0; };
-        std::string ret = "-";
-        Ev ev;
-        g_fault.clear();
-        int a = I(1);
-        V *&v = r[a % NREG];
-        std::vector<int> &mv = m[a % NREG];
-#define BEGIN_EV (g_ev = Ev(), g_fuse = arm, g_afuse = afuse, g_alimit = alimit)
-#define END_EV (ev = g_ev, g_fuse = -1, g_afuse = -1, g_alimit = -1)
-        bool athrew = false;
-        const Snap before = snap();
-        try
-        {
-        if (op == "push")
-        {
-            xarg.reset(new T(mk(I(2))));
-            T &x = *xarg;
-            BEGIN_EV;
-            v->push_back(x);
-            END_EV;
-            mv.push_back(I(2));
-            if (v->capacity() == v->size())
-                o.tag("full");
-        }
-        else if (op == "pushself")
-        {
-            BEGIN_EV;
-            v->push_back((*v)[I(2)]);
-            END_EV;
-            mv.push_back(int(mv[I(2)]));
-            o.tag("alias");
-        }
-        else if (op == "eback")
-        {
-            BEGIN_EV;
-            v->emplace_back(I(2));
-            END_EV;
-            mv.emplace_back(I(2));
-        }
-        else if (op == "ebackself")
-        {
-            BEGIN_EV;
-            v->emplace_back((*v)[I(2)]);
-            END_EV;
-            mv.push_back(int(mv[I(2)]));
-            o.tag("alias");
-        }
-        else if (op == "pop")
-        {
-            BEGIN_EV;
-            v->pop_back();
-            END_EV;
-            mv.pop_back();
-        }
-        else if (op == "ins" || op == "insi")
-        {
-            xarg.reset(new T(mk(I(3))));
-            T &x = *xarg;
-            bool grow = v->size() == v->capacity();
-            BEGIN_EV;
-            auto it = op == "ins" ? v->insert(v->begin() + I(2), x) : v->insert((int)I(2), x);
-            END_EV;
-            ret = std::to_string(it - v->begin());
-            auto mi = mv.insert(mv.begin() + I(2), I(3));
-            if (mi - mv.begin() != it - v->begin())
-                o.fail("insert returns a different position");
-            o.tag(grow ? "ins-grow" : "ins-room");
-            if ((size_t)I(2) + 1 == v->size())
-                o.tag("ins-end");
-        }
-        else if (op == "insself")
-        {
-            bool grow = v->size() == v->capacity();
-            BEGIN_EV;
-            auto it = v->insert(v->begin() + I(2), (*v)[I(3)]);
-            END_EV;
-            ret = std::to_string(it - v->begin());
-            int x = mv[I(3)];
-            mv.insert(mv.begin() + I(2), x);
-            o.tag(grow ? "alias-grow" : "alias");
-        }
-        else if (op == "empl")
-        {
-            bool grow = v->size() == v->capacity();
-            BEGIN_EV;
-            auto it = v->emplace(v->begin() + I(2), I(3));
-            END_EV;
-            ret = std::to_string(it - v->begin());
-            mv.emplace(mv.begin() + I(2), I(3));
-            o.tag(grow ? "empl-grow" : "empl-room");
-        }
-        else if (op == "emplself")
-        {
-            BEGIN_EV;
-            auto it = v->emplace(v->begin() + I(2), (*v)[I(3)]);
-            END_EV;
-            ret = std::to_string(it - v->begin());
-            int x = mv[I(3)];
-            mv.insert(mv.begin() + I(2), x);
-            o.tag("alias");
-        }
-        else if (op == "insr")
-        { // a range of the vector's own elements
-            std::vector<int> rng(mv.begin() + I(3), mv.begin() + I(4));
-            bool grow = v->size() + rng.size() > v->capacity();
-            BEGIN_EV;
-            auto it = v->insert(v->begin() + I(2), (const T *)v->begin() + I(3), (const T *)v->begin() + I(4));
-            END_EV;
-            ret = std::to_string(it - v->begin());
-            mv.insert(mv.begin() + I(2), rng.begin(), rng.end());
-            o.tag(grow ? "insr-grow" : "insr-room");
-            if (I(3) < I(2) && I(2) < I(4))
-                o.tag("insr-straddle");
-        }
-        else if (op == "insx")
-        { // a foreign range (exactly sized heap array)
-            size_t n = w.size() - 3;
-            std::vector<int> rng;
-            for (size_t k = 0; k < n; k++)
-                rng.push_back(I(3 + k));
-            ExtArr ea(rng);
-            T *ext = ea.p;
-            bool grow = v->size() + n > v->capacity();
-            BEGIN_EV;
-            auto it = v->insert(v->begin() + I(2), (const T *)ext, (const T *)ext + n);
-            END_EV;
-            ret = std::to_string(it - v->begin());
-            mv.insert(mv.begin() + I(2), rng.begin(), rng.end());
-            o.tag(grow ? "insx-grow" : "insx-room");
-        }
-        else if (op == "inss")
-        {
-            if constexpr (!PORTABLE)
-            {
-                xarg.reset(new T(mk(I(2))));
-                T &x = *xarg;
-                BEGIN_EV;
-                auto it = v->insert_sorted(x);
-                END_EV;
-                ret = std::to_string(it - v->begin());
-                auto mi = mv.insert(std::upper_bound(mv.begin(), mv.end(), I(2)), I(2));
-                if (mi - mv.begin() != it - v->begin())
-                    o.fail("insert_sorted position");
-            }
-        }
-        else if (op == "erase")
-        {
-            BEGIN_EV;
-            v->erase(v->begin() + I(2), v->begin() + I(3));
-            END_EV;
-            mv.erase(mv.begin() + I(2), mv.begin() + I(3));
-            if (I(2) != I(3) && (size_t)I(3) < mv.size() + (I(3) - I(2)))
-                o.tag("erase-mid");
-        }
-        else if (op == "eraseto")
-        { // igris-only: erase(iterator newend) truncates
-            BEGIN_EV;
-            v->erase(v->begin() + I(2));
-            END_EV;
-            mv.erase(mv.begin() + I(2), mv.end());
-        }
-        else if (op == "erase1")
-        { // std::vector::erase(pos) removes ONE element (finding probe)
-            BEGIN_EV;
-            v->erase(v->begin() + I(2));
-            END_EV;
-            mv.erase(mv.begin() + I(2));
-        }
-        else if (op == "resize")
-        {
-            size_t before = mv.size(), capb = v->capacity();
-            // dirty the spare slots of an int vector explicitly: resize must VALUE-initialise (0), whatever was there
-            if (!TRK && v->data())
-                for (size_t k = before; k < capb; k++)
-                    memset((void *)(v->data() + k), 0x5a, sizeof(T));
-            BEGIN_EV;
-            v->resize((size_t)strtoull(w[2].c_str(), nullptr, 10));
-            END_EV;
-            mv.resize(I(2));
-            o.tag((size_t)I(2) > before ? ((size_t)I(2) <= capb ? "resize-grow-in-capacity" : "resize-grow-realloc") : "resize-shrink");
-        }
-        else if (op == "reserve")
-        {
-            size_t oc = v->capacity();
-            BEGIN_EV;
-            v->reserve((size_t)strtoull(w[2].c_str(), nullptr, 10));
-            END_EV;
-            mv.reserve(I(2));
-            if (v->capacity() < (size_t)I(2))
-                o.fail("reserve: capacity too small");
-            if (v->capacity() != oc)
-                o.tag("realloc");
-        }
-        else if (op == "clear")
-        {
-            BEGIN_EV;
-            v->clear();
-            END_EV;
-            mv.clear();
-        }
-        else if (op == "inval")
-        {
-            BEGIN_EV;
-            v->invalidate();
-            END_EV;
-            mv = std::vector<int>();
-        }
-        else if (op == "cctor" || op == "mctor" || op == "rctor" || op == "szctor" || op == "tctor" || op == "ilist")
-        { // destroy register a, construct a new vector in its place
-            BEGIN_EV;
-            g_fuse = -1; // the destructor of the old object is outside the fuse window (it has no throwing operation anyway)
-            delete v;
-            v = nullptr;
-            g_fuse = arm;
-            int s = I(2) % NREG;
-            if (op == "cctor")
-            {
-                v = new V(*r[s]);
-                mv = std::vector<int>(m[s]);
-                if (m[s].empty())
-                    o.tag("copy-empty");
-            }
-            else if (op == "mctor")
-            {
-                v = new V(std::move(*r[s]));
-                mv = std::vector<int>(std::move(m[s]));
-                m[s].clear();
-            }
-            else if (op == "rctor")
-            {
-                v = new V(r[s]->begin() + I(3), r[s]->begin() + I(4));
-                mv = std::vector<int>(m[s].begin() + I(3), m[s].begin() + I(4));
-            }
-            else if (op == "szctor")
-            {
-                v = new V((size_t)I(2));
-                mv = std::vector<int>((size_t)I(2));
-            }
-            else if (op == "tctor")
-            { // template <class I, class O> vector(I first, O last) with a foreign const range
-                size_t n = w.size() - 2;
-                std::vector<int> rng;
-                for (size_t k = 0; k < n; k++)
-                    rng.push_back(I(2 + k));
-                ExtArr ea(rng);
-                T *ext = ea.p;
-                mv.clear();
-                v = new V((const T *)ext, (const T *)ext + n);
-                mv = rng;
-            }
-            else
-            {
-                if constexpr (!PORTABLE)
-                {
-                    // the backing array of the initializer list is n extra constructions + destructions
-                    size_t n = w.size() - 2;
-                    switch (n)
-                    {
-                    case 0: v = new V(std::initializer_list<T>{}); break;
-                    case 1: v = new V{mk(I(2))}; break;
-                    case 2: v = new V{mk(I(2)), mk(I(3))}; break;
-                    case 3: v = new V{mk(I(2)), mk(I(3)), mk(I(4))}; break;
-                    default: v = new V{mk(I(2)), mk(I(3)), mk(I(4)), mk(I(5))}; break;
-                    }
-                    mv.clear();
-                    for (size_t k = 0; k < n && k < 4; k++)
-                        mv.push_back(I(2 + k));
-                }
-                else
-                    v = new V();
-            }
-            END_EV;
-        }
-        else if (op == "cas" || op == "mas")
-        {
-            int s = I(2) % NREG;
-            BEGIN_EV;
-            if (op == "cas")
-                *v = *r[s];
-            else
-                *v = std::move(*r[s]);
-            END_EV;
-            if (op == "cas")
-                mv = m[s];
-            else if (a % NREG != s)
-            {
-                mv = std::move(m[s]);
-                m[s].clear();
-            }
-            if (a % NREG == s)
-                o.tag("self");
-        }
-        else if (op == "eq" || op == "ne" || op == "lt")
-        {
-            int s = I(2) % NREG;
-            BEGIN_EV;
-            bool b = false, e = false;
-            if (op == "eq")
-            {
-                b = *v == *r[s];
-                e = mv == m[s];
-            }
-            else if (op == "ne")
-            {
-                b = *v != *r[s];
-                e = mv != m[s];
-            }
-            else
-            {
-                if constexpr (!PORTABLE)
-                    b = *v < *r[s];
-                e = mv < m[s];
-            }
-            END_EV;
-            ret = b ? "1" : "0";
-            if (b != e)
-                o.fail("comparison differs from std::vector");
-            o.tag(b ? "cmp-true" : "cmp-false");
-        }
-        else if (op == "at")
-        {
-            BEGIN_EV;
-            if constexpr (!PORTABLE)
-            {
-                bool thrown = false, ethrown = false;
-                int got = 0, exp = 0;
-                try
-                {
-                    got = peek(v->at((size_t)I(2)));
-                }
-                catch (const std::out_of_range &)
-                {
-                    thrown = true;
-                }
-                try
-                {
-                    exp = mv.at((size_t)I(2));
-                }
-                catch (const std::out_of_range &)
-                {
-                    ethrown = true;
-                }
-                ret = thrown ? "throw" : std::to_string(got);
-                if (thrown != ethrown || got != exp)
-                    o.fail("at() differs from std::vector");
-                if (thrown)
-                    o.tag("at-throw");
-            }
-            END_EV;
-        }
-        else if (op == "cat")
-        { // const at()
-            BEGIN_EV;
-            if constexpr (!PORTABLE)
-            {
-                const V &cv = *v;
-                bool thrown = false, ethrown = false;
-                int got = 0, exp = 0;
-                try
-                {
-                    got = peek(cv.at((size_t)I(2)));
-                }
-                catch (const std::out_of_range &)
-                {
-                    thrown = true;
-                }
-                try
-                {
-                    exp = ((const std::vector<int> &)mv).at((size_t)I(2));
-                }
-                catch (const std::out_of_range &)
-                {
-                    ethrown = true;
-                }
-                ret = thrown ? "throw" : std::to_string(got);
-                if (thrown != ethrown || got != exp)
-                    o.fail("const at() differs from std::vector");
-                if (thrown)
-                    o.tag("at-throw");
-            }
-            END_EV;
-        }
-        else if (op == "idx")
-        {
-            BEGIN_EV;
-            const V &cv = *v;
-            int g1 = peek((*v)[(size_t)I(2)]), g2 = peek(cv[(size_t)I(2)]);
-            END_EV;
-            ret = std::to_string(g1);
-            if (g1 != mv[I(2)] || g2 != mv[I(2)])
-                o.fail("operator[] differs from std::vector");
-        }
-        else if (op == "fb")
-        {
-            BEGIN_EV;
-            const V &cv = *v;
-            int f = peek(v->front()), b = peek(v->back());
-            int f2 = peek(cv.front()), b2 = peek(cv.back());
-            END_EV;
-            ret = std::to_string(f) + "," + std::to_string(b);
-            if (f != mv.front() || b != mv.back() || f2 != f || b2 != b)
-                o.fail("front/back differ from std::vector");
-        }
-        else if (op == "iter")
-        { // begin()..end()
-            BEGIN_EV;
-            std::vector<int> got;
-            for (auto it = v->begin(); it != v->end(); ++it)
-                got.push_back(peek(*it));
-            END_EV;
-            ret = std::to_string(got.size());
-            if (got != mv)
-                o.fail("begin..end differs from std::vector");
-        }
-        else if (op == "riter")
-        { // std::vector: for (it = rbegin(); it != rend(); ++it) visits the elements backwards
-            BEGIN_EV;
-            std::vector<long> got, exp;
-            size_t guard = 0;
-            for (auto it = v->rbegin(); it != v->rend() && guard < v->size() + 2; ++it, ++guard)
-                got.push_back((long)(it - v->begin()));
-            END_EV;
-            for (size_t k = v->size(); k-- > 0;)
-                exp.push_back((long)k);
-            ret = std::to_string(got.size());
-            if (got != exp)
-                o.fail("rbegin..rend with ++ does not visit the elements in reverse order");
-        }
-        else if (op == "end")
-        {
-            BEGIN_EV;
-            for (auto &p : r)
-            {
-                delete p;
-                p = nullptr;
-            }
-            END_EV;
-            Ev t = g_tot;
-            t.ctor += ev.ctor; t.mctor += ev.mctor; t.dtor += ev.dtor; t.asg += ev.asg; t.masg += ev.masg;
-            t.alloc += ev.alloc; t.dealloc += ev.dealloc;
-            if (TRK && !g_live.empty())
-                o.fail(std::to_string(g_live.size()) + " objects never destroyed");
-            if (TRK && t.ctor + t.mctor != t.dtor)
-                o.fail("constructed " + std::to_string(t.ctor + t.mctor) + " destroyed " + std::to_string(t.dtor));
-            if (!g_blocks.empty() || t.alloc != t.dealloc)
-                o.fail("allocated " + std::to_string(t.alloc) + " deallocated " + std::to_string(t.dealloc));
-            if (!g_fault.empty())
-                o.fail("lifetime " + g_fault);
-            // round 3: the totals depend on how often the buffer was reallocated (growth policy); the property fixes
-            // the BALANCE (constructed = destroyed, allocated = freed, nothing alive), which is what is printed
-            bool bal = g_live.empty() && (!TRK || t.ctor + t.mctor == t.dtor) && g_blocks.empty() && t.alloc == t.dealloc;
-            o.result = std::string("end bal=") + (bal ? "ok" : "BAD");
-            for (auto q : g_live)
-                delete ((Tracked *)q)->heap;
-            g_live.clear();
-            for (auto &p : r)
-                p = new V();
-            for (auto &x : m)
-                x.clear();
-            g_tot = Ev();
-            return false;
-        }
-        else if (op == "widths")
-        { // type widths the model embeds (size_t counters: no wrap below 2^64), read out of the compiled code
-            char b[160];
-            snprintf(b, sizeof b, "size=%zu cap=%zu diff=%zu idx=%zu obj=%zu", sizeof(decltype(v->size())), sizeof(decltype(v->capacity())),
-                     sizeof(typename V::difference_type), sizeof(typename V::size_type), sizeof(V) / sizeof(void *));
-            o.result = b;
-            return false;
-        }
-        else
-        {
-            o.result = "bad-op";
-            o.fail("unknown op");
-            return false;
-        }
-        }
-        catch (const Boom &)
-        {
-            threw = true;
-        }
-        catch (const std::bad_alloc &)
-        {
-            athrew = true;
-        }
-        g_fuse = -1;
-        g_afuse = -1;
-        g_alimit = -1;
-        {
-            Ev keep = g_ev; // the harness' own argument object is not an event of the operation
-            xarg.reset();
-            g_ev = keep;
-        }
-        if (threw)
-        {
-            // the injected exception left the member function.  STRONG guarantee where std::vector gives it
-            // (single-element insertion at any position, resize, reserve, the constructors: no object comes to
-            // exist): the mirror is left as it was and check() compares.  BASIC guarantee for the range insert and
-            // copy assignment: the vector holds SOME valid sequence - the mirror is re-read from it and check()
-            // still demands that every slot below size() holds a constructed, not moved-from object, that the
-            // number of live objects is the sum of the sizes and that capacity() is the block size.
-            ev = g_ev;
-            ret = "threw";
-            bool ctor_op = op == "cctor" || op == "tctor" || op == "rctor" || op == "szctor";
-            bool basic = op == "insr" || op == "insx" || op == "cas";
-            if (ctor_op)
-            {
-                if (!v)
-                    v = new V();
-                mv.clear();
-            }
-            else if (basic)
-            {
-                mv.clear();
-                for (size_t k = 0; k < v->size(); k++)
-                    mv.push_back(peek(v->data()[k]));
-            }
-            o.tag(basic ? "threw-basic" : ctor_op ? "threw-ctor" : "threw-strong");
-        }
-        else if (arm >= 0)
-            o.tag("fuse-not-reached");
-        if (athrew)
-        {
-            // the allocation failed.  std::vector: "no effects" for reserve / resize / push_back / emplace_back and
-            // for every insert form when the exception does not come from an element operation; no object for the
-            // constructors; a valid vector (basic guarantee) for copy assignment.
-            ev = g_ev;
-            ret = "badalloc";
-            bool ctor_op = op == "cctor" || op == "tctor" || op == "rctor" || op == "szctor" || op == "ilist" || op == "mctor";
-            if (ctor_op)
-            {
-                if (!v)
-                    v = new V();
-                mv.clear();
-            }
-            else if (op == "cas")
-            {
-                mv.clear();
-                for (size_t k = 0; k < v->size() && k < v->capacity(); k++)
-                    mv.push_back(peek(v->data()[k]));
-            }
-            else
-            {
-                int ai = a % NREG;
-                if (v->capacity() != before.cap[ai] || (const void *)v->data() != before.data[ai])
-                    o.fail("failed allocation changed capacity()/data(): capacity " + std::to_string(v->capacity()) + " was " + std::to_string(before.cap[ai]));
-            }
-        }
-        g_tot.ctor += ev.ctor; g_tot.mctor += ev.mctor; g_tot.dtor += ev.dtor; g_tot.asg += ev.asg; g_tot.masg += ev.masg;
-        g_tot.alloc += ev.alloc; g_tot.dealloc += ev.dealloc;
-        std::string cv = capverdict(op, a % NREG, I(2), before, ev, threw || athrew);
-        if (cv != "ok")
-            o.fail("capacity contract: " + cv);
-        // ledger verdict: objects constructed - destroyed by the operation = change of the number of elements
-        bool ledok = !TRK || (ev.ctor + ev.mctor - ev.dtor == sumsz(snap()) - sumsz(before));
-        if (!ledok)
-            o.fail("constructed - destroyed objects of the operation differ from the change of the sizes");
-        o.result = ret + " " + show(0) + " " + show(1) + " " + show(2) + " cap=" + cv + " led=" + (ledok ? "ok" : "BAD");
-        check(o);
-        return athrew;
-    }
-};
-
-// ------------------------------------------------------------------ comparison with element types whose == is not
-// the equality of the object representation (round 3): +0.0 / -0.0 and NaN, a record whose == ignores a field, a
-// struct with padding bytes, a bool-like byte.  All are trivially copyable, so a bytewise "fast path" is tempting.
-struct Rec
-{
-    int id, note;
-    bool operator==(const Rec &o) const { return id == o.id; }
-    bool operator!=(const Rec &o) const { return id != o.id; }
-    bool operator<(const Rec &o) const { return id < o.id; }
-};
-struct Pad
-{
-    char tag; // 3 padding bytes follow
-    int v;
-    bool operator==(const Pad &o) const { return tag == o.tag && v == o.v; }
-    bool operator!=(const Pad &o) const { return !(*this == o); }
-    bool operator<(const Pad &o) const { return v < o.v; }
-};
-struct Flag
-{
-    unsigned char b; // any non-zero byte means "set"
-    bool operator==(const Flag &o) const { return (b != 0) == (o.b != 0); }
-    bool operator!=(const Flag &o) const { return (b != 0) != (o.b != 0); }
-    bool operator<(const Flag &o) const { return (b != 0) < (o.b != 0); }
-};
-static_assert(std::is_trivially_copyable<Rec>::value && std::is_trivially_copyable<Pad>::value && std::is_trivially_copyable<Flag>::value, "");
-template <class T> struct Decode;
-template <> struct Decode<double>
-{
-    static double of(int c) { return c == 0 ? 0.0 : c == 1 ? -0.0 : c == 2 ? (double)NAN : (double)(c - 2); }
-};
-template <> struct Decode<float>
-{
-    static float of(int c) { return c == 0 ? 0.0f : c == 1 ? -0.0f : c == 2 ? (float)NAN : (float)(c - 2); }
-};
-template <> struct Decode<Rec>
-{
-    static Rec of(int c) { return Rec{c / 10, c % 10}; }
-};
-template <> struct Decode<Pad>
-{
-    static Pad of(int c)
-    {
-        Pad p;
-        memset((void *)&p, 0x11 * (c % 10), sizeof p); // the padding bytes differ with c % 10
-        p.tag = 'p';
-        p.v = c / 10;
-        return p;
-    }
-};
-template <> struct Decode<Flag>
-{
-    static Flag of(int c) { return Flag{(unsigned char)c}; }
-};
-template <class V, class T, bool PORTABLE> struct EqMach : MachBase
-{
-    // `cmpx a1 a2 … | b1 b2 …` : A == B, A != B, A < B, A == A, copy(A) == A, B == A  against std::vector<T>
-    void step(const std::vector<std::string> &w, out &o) override
-    {
-        if (w[0] != "cmpx")
-        {
-            o.result = "bad-op";
-            o.fail("unknown op");
-            return;
-        }
-        std::vector<T> sa, sb;
-        bool second = false;
-        for (size_t k = 1; k < w.size(); k++)
-        {
-            if (w[k] == "|") { second = true; continue; }
-            (second ? sb : sa).push_back(Decode<T>::of(atoi(w[k].c_str())));
-        }
-        V a, b;
-        for (size_t k = 0; k < sa.size(); k++)
-        { // elementwise memcpy keeps the exact representation (padding bytes included)
-            a.push_back(sa[k]);
-            memcpy((void *)&a[k], (const void *)&sa[k], sizeof(T));
-        }
-        for (size_t k = 0; k < sb.size(); k++)
-        {
-            b.push_back(sb[k]);
-            memcpy((void *)&b[k], (const void *)&sb[k], sizeof(T));
-        }
-        V ca(a);
-        std::vector<T> sca(sa);
-        std::string got, exp;
-        auto bit = [](bool x) { return x ? "1" : "0"; };
-        got += bit(a == b); exp += bit(sa == sb);
-        got += bit(a != b); exp += bit(sa != sb);
-        if constexpr (!PORTABLE)
-            got += bit(a < b);
-        else
-            got += bit(std::lexicographical_compare(a.begin(), a.end(), b.begin(), b.end()));
-        // C++17 meaning of operator< (std::lexicographical_compare with the element's <); the C++20 operator<=> of
-        // std::vector<double> answers "unordered" (so: not less) as soon as a NaN is met - that difference is tagged
-        exp += bit(std::lexicographical_compare(sa.begin(), sa.end(), sb.begin(), sb.end()));
-        if ((sa < sb) != std::lexicographical_compare(sa.begin(), sa.end(), sb.begin(), sb.end()))
-            o.tag("std20-spaceship-differs");
-        got += bit(a == a); exp += bit(sa == sa);
-        got += bit(ca == a); exp += bit(sca == sa);
-        got += bit(b == a); exp += bit(sb == sa);
-        o.result = got;
-        if (got != exp)
-            o.fail("comparison bits ==,!=,<,self==,copy==,reversed== are " + got + ", std::vector<T> gives " + exp);
-        bool bytes_equal = sa.size() == sb.size() && (sa.empty() || memcmp((const void *)sa.data(), (const void *)sb.data(), sa.size() * sizeof(T)) == 0);
-        if (bytes_equal != (sa == sb))
-            o.tag("eq-differs-from-bytes");
-        o.tag(sa == sb ? "cmpx-eq" : "cmpx-ne");
-    }
-};
-
-// ------------------------------------------------------------------ flat_map / flat_set
-#include "C02/flat_ops.h"
-// hosted instantiations: comparator 0 = std::less (default), 1 = std::greater, 2 = by last digit (a strict
-// weak order whose equivalence is coarser than ==), 3 = std::greater<std::string> on the decimal text
-static FlatOps<igris::flat_map<int, int>, igris::flat_set<int>, int, int> g_flat0;
-static FlatOps<igris::flat_map<int, int, std::greater<int>>, igris::flat_set<int, std::greater<int>>, int, int> g_flat1;
-static FlatOps<igris::flat_map<int, int, ByLastDigit>, igris::flat_set<int, ByLastDigit>, int, int> g_flat2;
-static FlatOps<igris::flat_map<std::string, int, std::greater<std::string>>, igris::flat_set<std::string, std::greater<std::string>>, int, std::string, std::string> g_flat3;
-// comparator 4 = "dirdesc": the set is constructed from a comparator OBJECT, flat_set<int, Dir>(Dir(true)); the map
-// has no such constructor and keeps the default-constructed (ascending) Dir
-struct FlatOpsDir : FlatOps<igris::flat_map<int, int, Dir>, igris::flat_set<int, Dir>, int, int>
-{
-    void reset() override
-    {
-        fm = igris::flat_map<int, int, Dir>();
-        fs = igris::flat_set<int, Dir>(Dir(true));
-    }
-};
-static FlatOpsDir g_flat4;
-static FlatBase *g_flats[5] = {&g_flat0, &g_flat1, &g_flat2, &g_flat3, &g_flat4};
-static FlatBase *g_flat = &g_flat0;
 static int cmp_index(const std::string &name)
 {
     if (name == "" || name == "less") return 0;
@@ -1208,170 +33,6 @@ static int cmp_index(const std::string &name)
     if (name == "dirdesc") return 4;
     return -1;
 }
-
-// oracle: the same operation on real std::map / std::set, printed the same way
-struct MirrorBase
-{
-    virtual ~MirrorBase() {}
-    virtual void reset() = 0;
-    virtual std::string step(const std::vector<std::string> &w, out &o) = 0;
-};
-// the same comparator type is handed to std::map / std::set
-template <class K, class Cmp> struct FlatMirror : MirrorBase
-{
-    std::map<K, int, Cmp> mm;
-    std::set<K, Cmp> ms;
-    void reset() override
-    {
-        mm = std::map<K, int, Cmp>();
-        ms = make_set((Cmp *)nullptr);
-    }
-    template <class C> static std::set<K, C> make_set(C *) { return std::set<K, C>(); }
-    static std::set<K, Dir> make_set(Dir *) { return std::set<K, Dir>(Dir(true)); }
-    std::string step(const std::vector<std::string> &w, out &o) override
-    {
-        auto I = [&](size_t k) { return MkKey<K>::of(k < w.size() ? atoi(w[k].c_str()) : 0); };
-        auto V = [&](size_t k) { return k < w.size() ? atoi(w[k].c_str()) : 0; };
-        const std::string &op = w[0];
-        std::string exp = "-";
-        if (op == "mset")
-            mm[I(1)] = V(2);
-        else if (op == "mget")
-            exp = std::to_string(mm[I(1)]);
-        else if (op == "mins")
-        {
-            auto p = mm.insert({I(1), V(2)});
-            exp = std::to_string(unbox(p.first->first)) + ">" + std::to_string(p.first->second);
-            o.tag(p.second ? "ins-new" : "ins-dup");
-        }
-        else if (op == "mempl")
-        {
-            auto p = mm.emplace(I(1), V(2));
-            exp = std::to_string(p.second) + "," + std::to_string(p.first->second);
-        }
-        else if (op == "mfind")
-        {
-            auto it = mm.find(I(1));
-            exp = it == mm.end() ? "end" : std::to_string(it->second);
-        }
-        else if (op == "mcount")
-            exp = std::to_string(mm.count(I(1)));
-        else if (op == "mat")
-        {
-            auto it = mm.find(I(1));
-            exp = it == mm.end() ? "throw" : std::to_string(it->second);
-            if (it == mm.end())
-                o.tag("at-throw");
-        }
-        else if (op == "mclear")
-            mm.clear();
-        else if (op == "minit")
-        {
-            mm.clear();
-            size_t n = std::min<size_t>((w.size() - 1) / 2, 4);
-            for (size_t k = 0; k < n; k++)
-                mm.insert({I(1 + 2 * k), V(2 + 2 * k)});
-            o.tag(mm.size() != n ? "init-dup" : "init");
-        }
-        else if (op == "mcopy")
-            exp = "10";
-        else if (op == "miter")
-        {
-            exp = "";
-            for (auto &kv : mm)
-                exp += (exp.empty() ? "" : ",") + std::to_string(unbox(kv.first)) + ">" + std::to_string(kv.second);
-            if (exp.empty())
-                exp = "-";
-            o.tag(mm.size() >= 3 ? "map-iter-3+" : "map-iter");
-        }
-        else if (op == "meq")
-        { // two std::maps with the same entries are equal whatever the insertion order
-            exp = "10";
-            o.tag(mm.size() >= 2 ? "map-eq-2+" : "map-eq");
-        }
-        else if (op == "mcget")
-        {
-            auto it = mm.find(I(1));
-            exp = it == mm.end() ? "0" : std::to_string(it->second);
-            o.tag(it == mm.end() ? "cget-absent" : "cget-present");
-        }
-        else if (op == "mmisc")
-        { // hosted only: forward | reverse | all the other members consistent
-            std::string f, r;
-            for (auto it = mm.begin(); it != mm.end(); ++it)
-                f += (f.empty() ? "" : ",") + std::to_string(unbox(it->first)) + ">" + std::to_string(it->second);
-            for (auto it = mm.rbegin(); it != mm.rend(); ++it)
-                r += (r.empty() ? "" : ",") + std::to_string(unbox(it->first)) + ">" + std::to_string(it->second);
-            exp = (f.empty() ? "-" : f) + "|" + (r.empty() ? "-" : r) + "|1";
-        }
-        else if (op == "smisc")
-            exp = std::to_string(ms.size()) + "," + std::to_string(ms.size());
-        else if (op == "ctrdtr")
-            exp = std::to_string(V(1)) + "," + std::to_string(V(1)) + "," + std::to_string(V(1)) + ",1";
-        else if (op == "mview")
-        {
-            static const std::map<int, int> ref{{1, 0}, {4, 10}, {7, 20}, {10, 30}};
-            auto it = ref.find(V(1));
-            exp = (it == ref.end() ? std::string("end") : std::to_string(std::distance(ref.begin(), it)) + ">" + std::to_string(it->second)) + ",4,4";
-        }
-        else if (op == "sins")
-            o.tag(ms.insert(I(1)).second ? "set-new" : "set-dup");
-        else if (op == "scount")
-            exp = std::to_string(ms.count(I(1)));
-        else if (op == "sclear")
-            ms.clear();
-        else if (op == "msize")
-            exp = std::to_string(mm.size());
-        else if (op == "ssize")
-            exp = std::to_string(ms.size());
-        else if (op == "siter")
-        {
-            exp = "";
-            for (const K &k : ms)
-                exp += (exp.empty() ? "" : ",") + std::to_string(unbox(k));
-            if (exp.empty())
-                exp = "-";
-            o.tag(ms.size() >= 8 ? "set-iter-long" : "set-iter");
-        }
-        std::string s = exp + " m=" + std::to_string(mm.size()) + ":";
-        bool first = true;
-        // the map is printed in the order of the integer keys (flat_map's own order is not part of C02)
-        std::vector<std::pair<int, int>> all;
-        for (auto &kv : mm)
-            all.push_back({unbox(kv.first), kv.second});
-        std::stable_sort(all.begin(), all.end(), [](const std::pair<int, int> &x, const std::pair<int, int> &y) { return x.first < y.first; });
-        for (auto &kv : all)
-        {
-            s += (first ? "" : ",") + std::to_string(kv.first) + ">" + std::to_string(kv.second);
-            first = false;
-        }
-        if (first)
-            s += "-";
-        s += " s=" + std::to_string(ms.size()) + ":";
-        first = true;
-        for (const K &k : ms)
-        {
-            s += (first ? "" : ",") + std::to_string(unbox(k));
-            first = false;
-        }
-        if (first)
-            s += "-";
-        return s;
-    }
-};
-static FlatMirror<int, std::less<int>> g_mirror0;
-static FlatMirror<int, std::greater<int>> g_mirror1;
-static FlatMirror<int, ByLastDigit> g_mirror2;
-static FlatMirror<std::string, std::greater<std::string>> g_mirror3;
-static FlatMirror<int, Dir> g_mirror4;
-static MirrorBase *g_mirrors[5] = {&g_mirror0, &g_mirror1, &g_mirror2, &g_mirror3, &g_mirror4};
-static MirrorBase *g_mirror = &g_mirror0;
-
-// ------------------------------------------------------------------ dispatch
-using VI = igris::vector<int, TA<int>>;
-using VT = igris::vector<Tracked, TA<Tracked>>;
-using PI = pt::igris::vector<int, TA<int>>;
-using PT = pt::igris::vector<Tracked, TA<Tracked>>;
 
 static MachBase *g_mach = nullptr;
 static int g_mode = 0; // 0 none, 1 vector, 2 flat hosted, 3 flat compat
@@ -1419,48 +80,6 @@ struct PreMain
     }
 };
 static PreMain g_premain __attribute__((init_priority(101)));
-
-// one long history on ONE object (>= 300 KiB of elements): reserve, n push_backs, every element checked, insert in
-// the middle, erase of a long range, resize up and down, copy, ==; linear in n.  The Lean driver does not run the slot
-// model on it (a closed form of the spec): correspondence + oracle only.
-template <class V> static std::string long_history(size_t n, out &o)
-{
-    V v;
-    std::vector<int> m;
-    v.reserve(n);
-    m.reserve(n);
-    const int *d0 = v.data();
-    for (size_t i = 0; i < n; i++)
-    {
-        v.push_back((int)(i * 7 + 1));
-        m.push_back((int)(i * 7 + 1));
-    }
-    if (v.data() != d0)
-        o.fail("reallocation inside the reserved capacity");
-    int x = -5;
-    v.insert(v.begin() + n / 2, x);
-    m.insert(m.begin() + n / 2, x);
-    v.erase(v.begin() + 10, v.begin() + n / 4);
-    m.erase(m.begin() + 10, m.begin() + n / 4);
-    v.resize(v.size() + 1000);
-    m.resize(m.size() + 1000);
-    v.resize(v.size() - 500);
-    m.resize(m.size() - 500);
-    V c(v);
-    bool same = v.size() == m.size();
-    long long sum = 0;
-    for (size_t i = 0; same && i < m.size(); i++)
-    {
-        same = v[i] == m[i];
-        sum += v[i];
-    }
-    if (!same)
-        o.fail("long history differs from std::vector");
-    if (!(c == v) || (c != v))
-        o.fail("copy of the long vector is not equal");
-    return std::to_string(v.size()) + " " + std::to_string(sum) + " " + std::to_string(v.capacity() >= v.size());
-}
-
 static void run_op(const std::vector<std::string> &w, const std::string &line, out &o)
 {
     if (!w.empty() && w[0] == "premain")
@@ -1473,7 +92,7 @@ static void run_op(const std::vector<std::string> &w, const std::string &line, o
     if (w.size() == 3 && w[0] == "long")
     {
         size_t n = (size_t)atol(w[2].c_str());
-        o.result = w[1] == "p" ? long_history<pt::igris::vector<int, TA<int>>>(n, o) : long_history<igris::vector<int, TA<int>>>(n, o);
+        o.result = c02_long(w[1] == "p", n, o);
         o.tag("long-input");
         return;
     }
@@ -1490,29 +109,22 @@ static void run_op(const std::vector<std::string> &w, const std::string &line, o
         std::string kind = w.size() > 1 ? w[1] : "";
         std::string var = w.size() > 2 ? w[2] : "";
         o.result = "ok";
-        if (kind == "int" && var == "v") { g_mach = new Mach<VI, int, false>(); g_mode = 1; }
-        else if (kind == "trk" && var == "v") { g_mach = new Mach<VT, Tracked, false>(); g_mode = 1; }
-        else if (kind == "int" && var == "p") { g_mach = new Mach<PI, int, true>(); g_mode = 1; }
-        else if (kind == "trk" && var == "p") { g_mach = new Mach<PT, Tracked, true>(); g_mode = 1; }
+        if (kind == "int" && var == "v") { g_mach = c02_mach_vi(); g_mode = 1; }
+        else if (kind == "trk" && var == "v") { g_mach = c02_mach_vt(); g_mode = 1; }
+        else if (kind == "int" && var == "p") { g_mach = c02_mach_pi(); g_mode = 1; }
+        else if (kind == "trk" && var == "p") { g_mach = c02_mach_pt(); g_mode = 1; }
         else if (kind == "eqx" && w.size() > 3 && (w[3] == "v" || w[3] == "p"))
         {
-            bool pp = w[3] == "p";
             g_mode = 1;
-#define EQM(T) (pp ? (MachBase *)new EqMach<pt::igris::vector<T>, T, true>() : (MachBase *)new EqMach<igris::vector<T>, T, false>())
-            if (var == "dbl") g_mach = EQM(double);
-            else if (var == "flt") g_mach = EQM(float);
-            else if (var == "rec") g_mach = EQM(Rec);
-            else if (var == "pad") g_mach = EQM(Pad);
-            else if (var == "flag") g_mach = EQM(Flag);
-            else { o.result = "bad-op"; o.fail("unknown element type"); g_mode = 0; }
+            g_mach = c02_mach_eqx(var, w[3] == "p");
+            if (!g_mach) { o.result = "bad-op"; o.fail("unknown element type"); g_mode = 0; }
         }
         else if (kind == "flat" && (var == "h" || var == "c") && cmp_index(w.size() > 3 ? w[3] : "") >= 0)
         {
             // `reset flat h|c [less|greater|lastdigit|sgreater]`
             int ci = cmp_index(w.size() > 3 ? w[3] : "");
-            g_mirror = g_mirrors[ci];
-            g_mirror->reset();
-            if (var == "h") { g_flat = g_flats[ci]; g_flat->step("reset"); g_mode = 2; }
+            c02_mirror_select(ci);
+            if (var == "h") { c02_flat_select(ci); g_mode = 2; }
             else if (ci == 4) { o.result = "bad-op"; o.fail("dirdesc is hosted only (compat/std/set declares no constructors)"); return; }
             else { c02_compat(line); g_mode = 3; }
         }
@@ -1523,8 +135,13 @@ static void run_op(const std::vector<std::string> &w, const std::string &line, o
         g_mach->step(w, o);
     else if (g_mode == 2 || g_mode == 3)
     {
-        o.result = g_mode == 2 ? g_flat->step(line) : c02_compat(line);
-        std::string exp = g_mirror->step(w, o);
+        long fired = g_fa_fired;
+        o.result = g_mode == 2 ? c02_flat_step(line) : c02_compat(line);
+        // `afail <k> <op …>`: the oracle is the plain operation on std::map / std::set
+        bool af = w[0] == "afail" && w.size() > 2;
+        if (af)
+            o.tag(g_fa_fired != fired ? "flat-alloc-refused" : "flat-alloc-not-reached");
+        std::string exp = c02_mirror_step(af ? std::vector<std::string>(w.begin() + 2, w.end()) : w, o);
         if (o.result != exp)
             o.fail("std::map/std::set answer '" + exp + "'");
     }
@@ -1535,741 +152,9 @@ static void run_op(const std::vector<std::string> &w, const std::string &line, o
     }
 }
 
-// ------------------------------------------------------------------ generator
-struct Gen
-{
-    rng &R;
-    std::vector<int> sz{0, 0, 0}, cap{0, 0, 0};
-    bool portable = false;
-    explicit Gen(rng &r) : R(r) {}
-    std::string once; // prefix for the next emitted line only (`a <k> ` / `al <n> `: allocation failure)
-    void emit(const std::string &s)
-    {
-        puts((once + s).c_str());
-        once.clear();
-    }
-    static std::string S(int x) { return std::to_string(x); }
-    int val() { return (int)R.range(0, 9); }
-    int pos(int n) // boundary biased position in [0,n]
-    {
-        if (n == 0)
-            return 0;
-        switch (R.below(4))
-        {
-        case 0: return 0;
-        case 1: return n;
-        case 2: return n - 1;
-        default: return (int)R.range(0, n);
-        }
-    }
-    void begin(const char *ty, bool p)
-    {
-        portable = p;
-        emit(std::string("reset ") + ty + (p ? " p" : " v"));
-        sz = {0, 0, 0};
-        cap = {0, 0, 0};
-    }
-    void grow(int r, int need)
-    {
-        if (need > cap[r])
-            cap[r] = need;
-    }
-    // build register r with n elements and `slack` spare slots
-    void build(int r, int n, int slack)
-    {
-        if (n + slack > 0)
-        {
-            emit("reserve " + S(r) + " " + S(n + slack));
-            grow(r, n + slack);
-        }
-        for (int i = 0; i < n; i++)
-        {
-            emit((R.chance(50) ? "push " : "eback ") + S(r) + " " + S(1 + (int)R.below(9))); // non-zero: the memory is dirty afterwards
-        }
-        sz[r] = n;
-    }
-    // one operation on register r valid for the tracked size; returns false if not applicable.
-    // fz >= 0: the operation is run with the exception fuse `x fz` (only kinds with a throwing-capable element
-    // operation; the generator predicts whether the exception fires and what the vector holds afterwards)
-    bool op(int kind, int r, int fz = -1)
-    {
-        int n = sz[r];
-        std::string X = fz >= 0 ? "x " + S(fz) + " " : "";
-        bool one = fz == 0; // kinds with exactly one throwing-capable operation throw iff the fuse is 0
-        switch (kind)
-        {
-        case 0: emit(X + "push " + S(r) + " " + S(val())); if (one) return true; grow(r, n + 1); sz[r]++; return true;
-        case 1: emit(X + "eback " + S(r) + " " + S(val())); if (one) return true; grow(r, n + 1); sz[r]++; return true;
-        case 2: if (!n) return false; emit("pop " + S(r)); sz[r]--; return true;
-        case 3: emit(X + (R.chance(80) ? "ins " : "insi ") + S(r) + " " + S(pos(n)) + " " + S(val())); if (one) return true; grow(r, n + 1); sz[r]++; return true;
-        case 4: emit(X + "empl " + S(r) + " " + S(pos(n)) + " " + S(val())); if (one) return true; grow(r, n + 1); sz[r]++; return true;
-        case 5: if (!n) return false; emit(X + "pushself " + S(r) + " " + S(pos(n - 1))); if (one) return true; grow(r, n + 1); sz[r]++; return true;
-        case 6: if (!n) return false; emit(X + "insself " + S(r) + " " + S(pos(n)) + " " + S(pos(n - 1))); if (one) return true; grow(r, n + 1); sz[r]++; return true;
-        case 7: if (!n) return false; emit(X + "ebackself " + S(r) + " " + S(pos(n - 1))); if (one) return true; grow(r, n + 1); sz[r]++; return true;
-        case 8: if (!n) return false; emit(X + "emplself " + S(r) + " " + S(pos(n)) + " " + S(pos(n - 1))); if (one) return true; grow(r, n + 1); sz[r]++; return true;
-        case 9:
-        {
-            int f = pos(n), l = pos(n);
-            if (f > l) std::swap(f, l);
-            int q = pos(n);
-            emit(X + "insr " + S(r) + " " + S(q) + " " + S(f) + " " + S(l));
-            if (l - f > 0) grow(r, n + l - f);
-            if (fz >= 0 && fz < l - f) { sz[r] = q + fz; return true; } // basic guarantee: the prefix and the copies made so far
-            sz[r] += l - f; return true;
-        }
-        case 10:
-        {
-            int k = (int)R.range(0, 4);
-            int q = pos(n);
-            std::string s = X + "insx " + S(r) + " " + S(q);
-            for (int i = 0; i < k; i++) s += " " + S(val());
-            emit(s);
-            if (k > 0) grow(r, n + k);
-            if (fz >= 0 && fz < k) { sz[r] = q + fz; return true; }
-            sz[r] += k; return true;
-        }
-        case 11:
-        {
-            int f = pos(n), l = pos(n);
-            if (f > l) std::swap(f, l);
-            emit("erase " + S(r) + " " + S(f) + " " + S(l)); sz[r] -= l - f; return true;
-        }
-        case 12: { int k = pos(n); emit("eraseto " + S(r) + " " + S(k)); sz[r] = k; return true; }
-        case 13: { int k = (int)R.range(0, n + 3); if (R.chance(30)) k = pos(n); emit(X + "resize " + S(r) + " " + S(k)); grow(r, k); if (fz >= 0 && fz < k - n) return true; sz[r] = k; return true; }
-        case 14: { int k = (int)R.range(0, std::max(cap[r], n) + 3); emit("reserve " + S(r) + " " + S(k)); grow(r, k); return true; }
-        case 15: emit("clear " + S(r)); sz[r] = 0; return true;
-        case 16: emit("inval " + S(r)); sz[r] = 0; cap[r] = 0; return true;
-        case 17: { int s = (r + 1 + (int)R.below(2)) % 3; emit(X + "cctor " + S(r) + " " + S(s)); if (fz >= 0 && fz < sz[s]) { sz[r] = 0; cap[r] = 0; return true; } sz[r] = sz[s]; cap[r] = sz[s]; return true; }
-        case 18: { int s = (r + 1 + (int)R.below(2)) % 3; emit("mctor " + S(r) + " " + S(s)); sz[r] = sz[s]; cap[r] = cap[s]; sz[s] = 0; cap[s] = 0; return true; }
-        case 19: { int s = (int)R.below(3); emit(X + "cas " + S(r) + " " + S(s)); if (s != r) { cap[r] = sz[s]; sz[r] = (fz >= 0 && fz < sz[s]) ? fz : sz[s]; } return true; }
-        case 20: { int s = (int)R.below(3); emit("mas " + S(r) + " " + S(s)); if (s != r) { sz[r] = sz[s]; cap[r] = cap[s]; sz[s] = 0; cap[s] = 0; } return true; }
-        case 21:
-        {
-            int s = (r + 1 + (int)R.below(2)) % 3;
-            int f = pos(sz[s]), l = pos(sz[s]);
-            if (f > l) std::swap(f, l);
-            emit(X + "rctor " + S(r) + " " + S(s) + " " + S(f) + " " + S(l));
-            if (fz >= 0 && fz < l - f) { sz[r] = 0; cap[r] = 0; return true; }
-            sz[r] = l - f; cap[r] = l - f; return true;
-        }
-        case 22: return false;
-        case 23:
-        {
-            int k = (int)R.range(0, 4);
-            std::string s = X + "tctor " + S(r);
-            for (int i = 0; i < k; i++) s += " " + S(val());
-            emit(s);
-            if (fz >= 0 && fz < k) { sz[r] = 0; cap[r] = 0; return true; }
-            sz[r] = k; cap[r] = k; return true;
-        }
-        case 24:
-        {
-            if (portable) return false;
-            int k = (int)R.range(0, 4);
-            std::string s = "ilist " + S(r);
-            for (int i = 0; i < k; i++) s += " " + S(val());
-            emit(s); sz[r] = k; cap[r] = k; return true;
-        }
-        case 25: { int s = (int)R.below(3); emit(std::string(R.chance(50) ? "eq " : "ne ") + S(r) + " " + S(s)); return true; }
-        case 26: { if (portable) return false; int s = (int)R.below(3); emit("lt " + S(r) + " " + S(s)); return true; }
-        case 27: { if (portable) return false; emit(std::string(R.chance(50) ? "at " : "cat ") + S(r) + " " + S(R.chance(70) && n ? pos(n - 1) : n + (int)R.below(3))); return true; }
-        case 28: if (!n) return false; emit("idx " + S(r) + " " + S(pos(n - 1))); return true;
-        case 29: if (!n) return false; emit("fb " + S(r)); return true;
-        case 30: emit("iter " + S(r)); return true;
-        case 31: { if (portable) return false; emit("inss " + S(r) + " " + S(val())); grow(r, n + 1); sz[r]++; return true; }
-        case 32: { int k = (int)R.range(0, 4); emit(X + "szctor " + S(r) + " " + S(k)); if (fz >= 0 && fz < k) { sz[r] = 0; cap[r] = 0; return true; } sz[r] = k; cap[r] = k; return true; }
-        }
-        return false;
-    }
-    static const int NKIND = 33;
-
-    void history(const char *ty, bool p, int len)
-    {
-        bool trk = std::string(ty) == "trk";
-        begin(ty, p);
-        for (int i = 0; i < len; i++)
-        {
-            int r = (int)R.below(3);
-            // keep sizes small so that every (position, capacity) state recurs
-            int k;
-            if (sz[r] > 7 && R.chance(60))
-                k = R.chance(50) ? 11 : 12;
-            else
-                k = (int)R.below(NKIND);
-            if (k == 22)
-                k = 32;
-            // exception injection (instrumented element type, vector.h): about one operation in eight of the kinds
-            // that contain a throwing-capable element operation runs with a fuse of 0..3
-            static const bool throwing[NKIND] = {1, 1, 0, 1, 1, 1, 1, 1, 1, 1, 1, 0, 0, 1, 0, 0, 0, 1, 0, 1, 0, 1, 0, 1, 0, 0, 0, 0, 0, 0, 0, 0, 1};
-            if (trk && !p && throwing[k] && R.chance(13))
-                op(k, r, (int)R.below(4));
-            else
-            {
-                // allocation failure (all four builds): the k-th allocation of the call, or every request above a limit
-                if (R.chance(10))
-                    once = R.chance(70) ? "a " + S((int)R.below(2)) + " " : "al " + S((int)R.range(0, 6)) + " ";
-                op(k, r);
-                once.clear();
-            }
-        }
-        emit("end");
-    }
-
-    // every (operation, position, size, spare capacity) for small sizes
-    void exhaustive(const char *ty, bool p, int maxn, int stride, int &counter)
-    {
-        for (int n = 0; n <= maxn; n++)
-            for (int slack : {0, 1, 3})
-            {
-                auto one = [&](const std::function<void()> &f) {
-                    if ((counter++ % stride) != 0)
-                        return;
-                    begin(ty, p);
-                    build(0, n, slack);
-                    f();
-                    emit("iter 0");
-                    if (sz[0] > 0)
-                        emit("fb 0");
-                    emit("end");
-                };
-                for (int q = 0; q <= n; q++)
-                {
-                    one([&] { emit("ins 0 " + S(q) + " 7"); sz[0] = n + 1; });
-                    one([&] { emit("empl 0 " + S(q) + " 7"); sz[0] = n + 1; });
-                    one([&] { emit("eraseto 0 " + S(q)); sz[0] = q; });
-                    one([&] { emit("insx 0 " + S(q) + " 7 8"); sz[0] = n + 2; });
-                    one([&] { emit("insx 0 " + S(q) + " 7 8 9 6"); sz[0] = n + 4; });
-                    for (int i = 0; i < n; i++)
-                    {
-                        one([&] { emit("insself 0 " + S(q) + " " + S(i)); sz[0] = n + 1; });
-                        one([&] { emit("emplself 0 " + S(q) + " " + S(i)); sz[0] = n + 1; });
-                    }
-                    for (int f = 0; f <= n; f++)
-                        for (int l = f; l <= n; l++)
-                            one([&] { emit("insr 0 " + S(q) + " " + S(f) + " " + S(l)); sz[0] = n + l - f; });
-                }
-                for (int f = 0; f <= n; f++)
-                    for (int l = f; l <= n; l++)
-                    {
-                        one([&] { emit("erase 0 " + S(f) + " " + S(l)); sz[0] = n - (l - f); });
-                        one([&] { emit("rctor 1 0 " + S(f) + " " + S(l)); emit("eq 1 0"); });
-                    }
-                for (int i = 0; i < n; i++)
-                {
-                    one([&] { emit("pushself 0 " + S(i)); sz[0] = n + 1; });
-                    one([&] { emit("ebackself 0 " + S(i)); sz[0] = n + 1; });
-                }
-                for (int k = 0; k <= n + 4; k++)
-                {
-                    one([&] { emit("resize 0 " + S(k)); sz[0] = k; });
-                    one([&] { emit("reserve 0 " + S(k)); });
-                }
-                // value-initialisation on DIRTY memory: shrink (the slots keep the bytes of the destroyed elements), then
-                // grow again inside the capacity; a recycled block (the freed block of the same size class comes back)
-                for (int q = 0; q <= n; q++)
-                    one([&] { emit("eraseto 0 " + S(q)); emit("resize 0 " + S(n + slack)); sz[0] = n + slack; });
-                one([&] { emit("clear 0"); emit("resize 0 " + S(n + slack)); sz[0] = n + slack; });
-                if (n)
-                    one([&] { emit("pop 0"); emit("resize 0 " + S(n)); sz[0] = n; });
-                one([&] { emit("inval 0"); emit("szctor 0 " + S(n + slack)); sz[0] = n + slack; });
-                one([&] { emit("mctor 1 0"); emit("inval 1"); emit("szctor 0 " + S(n + slack)); sz[0] = n + slack; });
-                one([&] { emit("push 0 5"); sz[0] = n + 1; });
-                one([&] { emit("eback 0 5"); sz[0] = n + 1; });
-                if (n)
-                    one([&] { emit("pop 0"); sz[0] = n - 1; });
-                one([&] { emit("clear 0"); sz[0] = 0; emit("push 0 1"); sz[0] = 1; });
-                one([&] { emit("inval 0"); sz[0] = 0; emit("push 0 1"); sz[0] = 1; });
-                one([&] { emit("cctor 1 0"); emit("eq 0 1"); emit("push 1 3"); emit("ne 0 1"); });
-                one([&] { emit("mctor 1 0"); sz[0] = 0; emit("push 0 3"); sz[0] = 1; emit("push 1 4"); });
-                // copy / move assignment onto targets of every shape
-                for (int tn : {0, 1, 3})
-                    for (int ts : {0, 2})
-                    {
-                        one([&] { build(1, tn, ts); emit("cas 1 0"); emit("eq 1 0"); emit("push 1 2"); });
-                        one([&] { build(1, tn, ts); emit("mas 1 0"); sz[0] = 0; emit("push 0 2"); sz[0] = 1; emit("push 1 2"); });
-                    }
-                one([&] { emit("cas 0 0"); emit("mas 0 0"); });
-                if (!p)
-                {
-                    for (int x = 0; x <= 9; x += 3)
-                        one([&] { emit("inss 0 " + S(x)); sz[0] = n + 1; });
-                    one([&] { emit("at 0 " + S(n)); emit("at 0 " + S(n + 5)); if (n) emit("at 0 " + S(n - 1)); if (n) emit("cat 0 " + S(n - 1)); });
-                }
-            }
-    }
-
-    // exception injection, exhaustively for small sizes (instrumented element type, vector.h): every operation that
-    // contains a throwing-capable element operation, every position, every fuse value that fires; afterwards the
-    // vector must be usable (push, iteration, front/back) and destructible without a leak (`end`)
-    void exceptions(int maxn, int stride, int &counter)
-    {
-        for (int n = 0; n <= maxn; n++)
-            for (int slack : {0, 1, 3})
-            {
-                auto one = [&](const std::string &line, int reg = 0) {
-                    if ((counter++ % stride) != 0)
-                        return;
-                    begin("trk", false);
-                    build(0, n, slack);
-                    if (reg == 1)
-                        build(1, 2, 1);
-                    emit(line);
-                    emit("push " + S(reg) + " 9");
-                    emit("iter " + S(reg));
-                    emit("fb " + S(reg));
-                    emit("eq 0 1");
-                    emit("end");
-                };
-                for (int q = 0; q <= n; q++)
-                {
-                    one("x 0 ins 0 " + S(q) + " 7");
-                    one("x 0 empl 0 " + S(q) + " 7");
-                    for (int k = 0; k < 3; k++)
-                        one("x " + S(k) + " insx 0 " + S(q) + " 7 8 9");
-                    for (int i = 0; i < n; i++)
-                        one("x 0 insself 0 " + S(q) + " " + S(i));
-                    for (int f = 0; f <= n; f++)
-                        for (int l = f + 1; l <= n; l++)
-                            for (int k : {0, l - f - 1})
-                                if (k == 0 || l - f > 1)
-                                    one("x " + S(k) + " insr 0 " + S(q) + " " + S(f) + " " + S(l));
-                }
-                one("x 0 push 0 5");
-                one("x 0 eback 0 5");
-                one("x 1 push 0 5"); // fuse not reached
-                for (int i = 0; i < n; i++)
-                    one("x 0 pushself 0 " + S(i));
-                for (int m = n + 1; m <= n + 3; m++)
-                    for (int k = 0; k < m - n; k++)
-                        one("x " + S(k) + " resize 0 " + S(m));
-                for (int k = 0; k < n; k++)
-                {
-                    one("x " + S(k) + " cas 1 0", 1);
-                    one("x " + S(k) + " cctor 1 0", 1);
-                    one("x " + S(k) + " rctor 1 0 0 " + S(n), 1);
-                }
-                for (int k = 0; k < 3; k++)
-                {
-                    one("x " + S(k) + " tctor 1 4 5 6", 1);
-                    one("x " + S(k) + " szctor 1 3", 1);
-                }
-                if (n)
-                    one("x 0 inss 0 4");
-            }
-    }
-
-    // allocation failure, exhaustively for small sizes, all four builds: every growing operation at every position,
-    // the constructors and copy assignment, with the first allocation failing (and a fuse that is not reached, and a
-    // size limit); afterwards the object is used further (the retried operation, push, iteration, ==, destructors)
-    void allocfail(const char *ty, bool p, int maxn, int stride, int &counter)
-    {
-        for (int n = 0; n <= maxn; n++)
-            for (int slack : {0, 1, 3})
-            {
-                auto one = [&](const std::string &line, int reg = 0) {
-                    if ((counter++ % stride) != 0)
-                        return;
-                    begin(ty, p);
-                    build(0, n, slack);
-                    if (reg == 1)
-                        build(1, 2, 1);
-                    emit(line);
-                    emit("push " + S(reg) + " 9");
-                    emit("iter " + S(reg));
-                    emit("fb " + S(reg));
-                    emit("reserve " + S(reg) + " " + S(n + slack + 6));
-                    emit("cctor 2 " + S(reg));
-                    emit("eq 2 " + S(reg));
-                    emit("end");
-                };
-                for (int q = 0; q <= n; q++)
-                {
-                    one("a 0 ins 0 " + S(q) + " 7");
-                    one("a 0 empl 0 " + S(q) + " 7");
-                    one("a 0 insx 0 " + S(q) + " 7 8");
-                    one("a 0 insx 0 " + S(q) + " 7 8 9 6");
-                    for (int i = 0; i < n; i++)
-                        one("a 0 insself 0 " + S(q) + " " + S(i));
-                    for (int f = 0; f <= n; f++)
-                        for (int l = f + 1; l <= n; l++)
-                            if ((f + l + q) % 2 == 0)
-                                one("a 0 insr 0 " + S(q) + " " + S(f) + " " + S(l));
-                }
-                one("a 0 push 0 5");
-                one("a 0 eback 0 5");
-                one("a 1 push 0 5"); // a second allocation does not exist
-                for (int i = 0; i < n; i++)
-                {
-                    one("a 0 pushself 0 " + S(i));
-                    one("a 0 ebackself 0 " + S(i));
-                }
-                for (int m : {n, n + slack, n + slack + 1, n + slack + 3})
-                {
-                    one("a 0 reserve 0 " + S(m));
-                    one("a 0 resize 0 " + S(m));
-                    one("al " + S(n + slack) + " reserve 0 " + S(m)); // the bounded allocator grants what is owned already
-                    one("al " + S(n + slack) + " resize 0 " + S(m));
-                }
-                one("al 0 push 0 5");
-                one("a 0 cas 1 0", 1);
-                one("a 0 cctor 1 0", 1);
-                one("a 0 mas 1 0", 1);
-                one("a 0 mctor 1 0", 1);
-                one("a 0 tctor 1 4 5 6", 1);
-                one("a 0 szctor 1 3", 1);
-                one("al 2 szctor 1 3", 1);
-                for (int k = 0; k < n; k++)
-                    one("a " + S(k) + " rctor 1 0 0 " + S(n), 1);
-                if (n && !p)
-                    one("a 0 inss 0 4");
-            }
-    }
-
-    // ==, !=, < with element types whose == is not the equality of the object representation: every pair of vectors
-    // of length <= 2 over a small alphabet of codes, plus longer random ones
-    void eqx(const char *ty, bool p, const std::vector<int> &alpha, int extra)
-    {
-        std::vector<std::vector<int>> all{{}};
-        for (int x : alpha)
-            all.push_back({x});
-        for (int x : alpha)
-            for (int y : alpha)
-                all.push_back({x, y});
-        emit(std::string("reset eqx ") + ty + (p ? " p" : " v"));
-        auto line = [&](const std::vector<int> &a, const std::vector<int> &b) {
-            std::string s = "cmpx";
-            for (int x : a) s += " " + S(x);
-            s += " |";
-            for (int x : b) s += " " + S(x);
-            emit(s);
-        };
-        for (auto &a : all)
-            for (auto &b : all)
-                line(a, b);
-        for (int i = 0; i < extra; i++)
-        {
-            std::vector<int> a, b;
-            int n = (int)R.range(0, 6);
-            for (int k = 0; k < n; k++)
-                a.push_back(alpha[R.below(alpha.size())]);
-            b = a;
-            // mostly equal-valued twins that differ in representation, sometimes one element or the length changed
-            for (auto &x : b)
-                if (R.chance(40))
-                    x = alpha[R.below(alpha.size())];
-            if (R.chance(20))
-                b.push_back(alpha[R.below(alpha.size())]);
-            line(a, b);
-        }
-    }
-
-    // the exception paths the std_portable.h copy shares with vector.h since the round-3 fixes (copy assignment and
-    // the constructors; the single-element insertions build their temporary first): same fuses, same demands
-    void exceptions_portable(int maxn)
-    {
-        for (int n = 0; n <= maxn; n++)
-            for (int slack : {0, 2})
-            {
-                auto one = [&](const std::string &line, int reg = 0) {
-                    begin("trk", true);
-                    build(0, n, slack);
-                    if (reg == 1)
-                        build(1, 2, 1);
-                    emit(line);
-                    emit("push " + S(reg) + " 9");
-                    emit("iter " + S(reg));
-                    emit("eq 0 1");
-                    emit("end");
-                };
-                one("x 0 push 0 5");
-                one("x 0 ins 0 " + S(n / 2) + " 7");
-                one("x 0 empl 0 " + S(n) + " 7");
-                if (n)
-                    one("x 0 insself 0 0 " + S(n - 1));
-                for (int k = 0; k < n; k++)
-                {
-                    one("x " + S(k) + " cas 1 0", 1);
-                    one("x " + S(k) + " cctor 1 0", 1);
-                    one("x " + S(k) + " rctor 1 0 0 " + S(n), 1);
-                }
-                for (int k = 0; k < 3; k++)
-                    one("x " + S(k) + " tctor 1 4 5 6", 1);
-                one("x 0 szctor 1 3", 1);
-            }
-    }
-
-    // comparisons: all pairs of short vectors over {1,2}
-    void comparisons(const char *ty, bool p)
-    {
-        std::vector<std::vector<int>> all{{}};
-        for (int len = 1; len <= 3; len++)
-            for (int code = 0; code < (1 << len); code++)
-            {
-                std::vector<int> v;
-                for (int i = 0; i < len; i++)
-                    v.push_back(1 + ((code >> i) & 1));
-                all.push_back(v);
-            }
-        for (auto &a : all)
-        {
-            begin(ty, p);
-            std::string s = "tctor 0";
-            for (int x : a) s += " " + S(x);
-            emit(s);
-            for (auto &b : all)
-            {
-                std::string t = "tctor 1";
-                for (int x : b) t += " " + S(x);
-                emit(t);
-                emit("eq 0 1");
-                emit("ne 0 1");
-                if (!p)
-                    emit("lt 0 1");
-            }
-            emit("end");
-        }
-    }
-
-    // ---------------- flat_map / flat_set
-    // cmp: "" (std::less), "greater", "lastdigit", "sgreater"
-    std::string flat_reset(bool compat, const std::string &cmp)
-    {
-        return std::string("reset flat ") + (compat ? "c" : "h") + (cmp.empty() ? "" : " " + cmp);
-    }
-    void flat(bool compat, int len, int keys, int off = 0, const std::string &cmp = "")
-    {
-        emit(flat_reset(compat, cmp));
-        for (int i = 0; i < len; i++)
-        {
-            int k = (int)R.range(0, keys) - off, v = (int)R.range(0, 99);
-            switch (R.below(20))
-            {
-            case 17: emit(compat || R.chance(60) ? "miter" : R.chance(50) ? "mmisc" : R.chance(50) ? "smisc" : "mview " + S(k)); break;
-            case 18: emit(R.chance(40) ? "meq" : "mcget " + S(k)); break;
-            case 19: emit(R.chance(45) ? "miter" : R.chance(10) ? "ctrdtr " + S(v) : "mcget " + S(k)); break;
-            case 13: emit(R.chance(50) ? "msize" : "ssize"); break;
-            case 14: emit("siter"); break;
-            case 15: emit("sins " + S(k)); break;
-            case 0: emit("mset " + S(k) + " " + S(v)); break;
-            case 1: emit("mget " + S(k)); break;
-            case 2: case 3: emit("mins " + S(k) + " " + S(v)); break;
-            case 4: emit("mempl " + S(k) + " " + S(v)); break;
-            case 5: emit("mfind " + S(k)); break;
-            case 6: emit("mcount " + S(k)); break;
-            case 7: emit("mat " + S(k)); break;
-            case 8: if (R.chance(10)) emit("mclear"); else emit("mcopy"); break;
-            case 9: case 10: emit("sins " + S(k)); break;
-            case 11: emit("scount " + S(k)); break;
-            case 12: if (R.chance(10)) emit("sclear"); else emit("scount " + S(k)); break;
-            default:
-                if (R.chance(15))
-                {
-                    // initializer list, with duplicate keys in half of the cases (all 27 three-entry
-                    // patterns: see flat_init_dups)
-                    int n = (int)R.range(0, 4);
-                    bool dups = R.chance(50);
-                    std::vector<int> ks;
-                    std::string s = "minit";
-                    for (int j = 0; j < n; j++)
-                    {
-                        int kk;
-                        do kk = (int)R.range(0, dups ? 2 : keys + 4) - off; while (!dups && std::find(ks.begin(), ks.end(), kk) != ks.end());
-                        ks.push_back(kk);
-                        s += " " + S(kk) + " " + S((int)R.range(0, 99));
-                    }
-                    emit(s);
-                }
-                else
-                    emit("mcount " + S(k));
-            }
-        }
-    }
-    // step = 1: keys 0,1,2; step = 10 (by-last-digit comparator): 0,10,20 are ONE key, probed as 0,1,2 / 10 / 20
-    void flat_init_dups(bool compat, const std::string &cmp = "", int step = 1)
-    {
-        for (int a = 0; a < 3; a++)
-            for (int b = 0; b < 3; b++)
-                for (int c = 0; c < 3; c++)
-                {
-                    emit(flat_reset(compat, cmp));
-                    emit("minit " + S(a * step) + " 10 " + S(b * step) + " 20 " + S(c * step) + " 30");
-                    if (step != 1)
-                        for (int k = 0; k < 3; k++)
-                        {
-                            emit("mcount " + S(k * step));
-                            emit("mfind " + S(k * step + 10));
-                        }
-                    for (int k = 0; k < 3; k++)
-                    {
-                        emit("mcount " + S(k));
-                        emit("mfind " + S(k));
-                        emit("mat " + S(k));
-                    }
-                    emit("mset 1 5");
-                    emit("mcount 1");
-                    emit("miter");
-                    emit("meq");
-                    emit("mcget 1");
-                    emit("mcget 7");
-                }
-    }
-    // every insertion order of up to 4 distinct keys (set + map insert)
-    void flat_orders(bool compat, const std::string &cmp = "")
-    {
-        std::vector<int> p{1, 2, 3, 4};
-        do
-        {
-            emit(flat_reset(compat, cmp));
-            for (int k : p)
-            {
-                emit("sins " + S(k));
-                emit("mins " + S(k) + " " + S(k * 10));
-            }
-            emit("sins " + S(p[1]));
-            emit("mins " + S(p[2]) + " 77");
-            emit("miter");
-            // the same four keys through the other insertion paths (operator[] write / read, emplace), then one more
-            // through insert: every path must keep the storage in key order
-            emit("mclear");
-            emit("mset " + S(p[0]) + " 1");
-            emit("mempl " + S(p[1]) + " 2");
-            emit("mget " + S(p[2]));
-            emit("mins " + S(p[3]) + " 4");
-            emit("mins " + S(p[0] + 4) + " 5");
-            emit("miter");
-            emit("meq");
-            if (!compat)
-            {
-                emit("mmisc");
-                emit("smisc");
-            }
-            if (!cmp.empty())
-            {
-                // keys that are equivalent to a stored one under the by-last-digit order, new ones under the others
-                emit("sins " + S(p[0] + 10));
-                emit("mins " + S(p[3] + 10) + " 88");
-                emit("siter");
-                emit("ssize");
-                emit("msize");
-                emit("scount " + S(p[2] + 20));
-                emit("mcount " + S(p[1] + 20));
-                emit("mat " + S(p[1] + 20));
-            }
-            for (int k = 0; k <= 5; k++)
-            {
-                emit("scount " + S(k));
-                emit("mcount " + S(k));
-            }
-        } while (std::next_permutation(p.begin(), p.end()));
-    }
-};
-
-static void gen(rng &r, const std::string &tier)
-{
-    bool th = tier == "thorough";
-    Gen g(r);
-    // findings (outside the normal stream)
-    for (const char *ty : {"int", "trk"})
-        for (bool p : {false, true})
-        {
-            g.begin(ty, p);
-            g.emit("tctor 0 1 2 3 4");
-            g.emit("@F:C02-erase-pos erase1 0 1");
-            g.emit("end");
-            g.begin(ty, p);
-            g.emit("tctor 0 1 2 3");
-            g.emit("@F:C02-reverse-iterators riter 0");
-            g.emit("end");
-        }
-    // std_portable.h: resize / insert(pos, first, last) have no handler (the header contains no try / catch at all)
-    g.begin("trk", true);
-    g.emit("push 0 1");
-    g.emit("@F:C02-portable-exception-paths x 1 resize 0 3");
-    g.emit("@F:C02-portable-exception-paths end"); // the object left behind m_size is never destroyed
-    g.begin("trk", true);
-    g.emit("tctor 0 1 2 3");
-    g.emit("@F:C02-portable-exception-paths x 1 insx 0 1 7 8 9");
-    g.emit("@F:C02-portable-exception-paths end");
-    int counter = (int)r.below(1000);
-    for (const char *ty : {"trk", "int"})
-        for (bool p : {false, true})
-        {
-            bool full = th || (std::string(ty) == "trk" && !p);
-            g.exhaustive(ty, p, th ? 5 : 4, full ? 1 : 3, counter);
-            if (std::string(ty) == "trk" || th)
-                g.comparisons(ty, p);
-        }
-    g.exceptions(th ? 5 : 4, 1, counter);
-    g.exceptions_portable(th ? 4 : 3);
-    g.emit("premain");
-    g.emit("long v 80000"); // 320 000 bytes of int
-    g.emit("long p 80000");
-    if (th)
-        g.emit("long v 1000000");
-    // requests no allocator grants: 2^31, 2^32, 2^61 (n * sizeof(T) = 2^63), 2^62, 2^63 elements
-    for (const char *ty : {"trk", "int"})
-        for (bool p : {false, true})
-            for (const char *big : {"2147483648", "4294967296", "2305843009213693952", "4611686018427387904", "9223372036854775808"})
-            {
-                g.begin(ty, p);
-                g.build(0, 2, 1);
-                g.emit(std::string("alx 4096 reserve 0 ") + big);
-                g.emit(std::string("alx 4096 resize 0 ") + big);
-                g.emit("push 0 5");
-                g.emit("iter 0");
-                g.emit("end");
-            }
-    // round 3: type widths, allocation failure, comparison under a non-bytewise element equality
-    for (const char *ty : {"trk", "int"})
-        for (bool p : {false, true})
-        {
-            g.begin(ty, p);
-            g.emit("widths 0");
-            g.emit("end");
-            bool full = th || (std::string(ty) == "trk" && !p);
-            g.allocfail(ty, p, th ? 4 : 3, full ? 1 : 3, counter);
-        }
-    for (bool p : {false, true})
-    {
-        g.eqx("dbl", p, {0, 1, 2, 3}, th ? 400 : 40);
-        g.eqx("flt", p, {0, 1, 2, 4}, th ? 400 : 40);
-        g.eqx("rec", p, {10, 11, 20}, th ? 400 : 40);
-        g.eqx("pad", p, {10, 13, 27}, th ? 400 : 40);
-        g.eqx("flag", p, {0, 1, 2}, th ? 400 : 40);
-    }
-    int hist = th ? 4000 : 260;
-    for (int i = 0; i < hist; i++)
-    {
-        const char *ty = r.chance(70) ? "trk" : "int";
-        g.history(ty, r.chance(40), (int)r.range(20, 70));
-    }
-    for (bool c : {false, true})
-    {
-        g.flat_init_dups(c);
-        g.flat_orders(c);
-        for (int i = 0; i < (th ? 600 : 40); i++)
-            g.flat(c, (int)r.range(20, 80), r.chance(50) ? 5 : 12);
-        // long bisections: up to 41 keys (negative ones included) in the set / the map
-        for (int i = 0; i < (th ? 150 : 10); i++)
-            g.flat(c, (int)r.range(80, 160), 40, 20);
-        // non-default comparators (handed to flat_map / flat_set / the compat std::map / std::set and to the
-        // std::map / std::set of the oracle): descending, equivalence classes by last digit, descending text
-        for (const char *cmp : {"greater", "lastdigit", "sgreater", "dirdesc"})
-        {
-            if (c && std::string(cmp) == "dirdesc")
-                continue; // hosted only
-            g.flat_init_dups(c, cmp, std::string(cmp) == "lastdigit" ? 10 : 1);
-            g.flat_orders(c, cmp);
-            for (int i = 0; i < (th ? 200 : 12); i++)
-            {
-                int keys = r.chance(50) ? 12 : 40;
-                g.flat(c, (int)r.range(30, 100), keys, r.chance(50) ? keys / 2 : 0, cmp);
-            }
-        }
-    }
-}
+void c02_gen(rng &r, const std::string &tier); // C02_gen.cpp
 
 int main(int argc, char **argv)
 {
-    return main_(argc, argv, gen, run_op);
+    return main_(argc, argv, c02_gen, run_op);
 }
